@@ -636,6 +636,5 @@ _C08_LOOP = {
              'identity_flags': [('visit', '_orig_default_visit', 'visit_is_default')],
              'trace_flags': ['trace_enter', 'trace_exit', 'trace_visit']},
     'tie_theorem': 'C08.src_remap_loop_simulates_hstep'}
-if __import__('os').environ.get('C08_LOOP') == '1':
-    _C08.append(_C08_LOOP)
+_C08.append(_C08_LOOP)
 SPECS['C08'] = _C08
